@@ -150,6 +150,8 @@ package ctlog
 //@   requires held(&l.poolMu)
 
 //@ func ctlog.(*Log).addLeafToPool props C02 C04 C07 C17
+//@   modifies gAddLeafCalls
+//@   defines gAddLeafCalls == old(gAddLeafCalls) + 1
 //@   requires l != nil && l.c != nil && leaf != nil && l.currentPool != nil && !held(&l.poolMu) && !held(&l.issuersMu)
 //@   requires forall k int :: has(l.currentPool.lowPriority, k) ==> (0 <= k && k < len(l.currentPool.pendingLeaves))
 //@   init gIssuerDone == emptyset("set[bytes]")
@@ -297,3 +299,47 @@ package ctlog
 //@   requires b != nil
 //@   returns [C05] not-found-sentinel: gNoSuchKey ==> (ret1 != nil && Is(ret1, ErrLogNotFound))
 //@   returns [C05] found-with-etag: ret1 == nil ==> out.ETag != nil && cast(ret0, "*ctlog.eTagCheckpoint").eTag == *out.ETag && cast(ret0, "*ctlog.eTagCheckpoint").body == data
+
+// ---- submission handling (C09)
+
+//@ ghost var gTypeChecked bool
+//@ ghost var gAddLeafCalls int
+//@ assume func ctlog.(*Log).addChainOrPreChain#param.checkType params le
+//@   modifies gTypeChecked
+//@   ensures gTypeChecked == (ret == nil)
+
+//@ func ctlog.(*Log).addChain$1 props C09
+//@   ensures [C09] add-chain-refuses-precertificates: ret == nil <==> !le.IsPrecert
+//@ func ctlog.(*Log).addPreChain$1 props C09
+//@   ensures [C09] add-pre-chain-refuses-final-certificates: ret == nil <==> le.IsPrecert
+
+//@ func ctlog.(*Log).addChainOrPreChain props C02 C09
+//@   requires l != nil && l.c != nil && l.currentPool != nil && !held(&l.poolMu) && !held(&l.issuersMu) && !held(&l.rootsMu)
+//@   requires forall k int :: has(l.currentPool.lowPriority, k) ==> (0 <= k && k < len(l.currentPool.pendingLeaves))
+//@   init gValidateCalls == 0 && gAddLeafCalls == 0
+//@   invariant "range chain[1:]" issuers-count: rangeindex < len(chain) - 1 && len(e.Issuers) == rangeindex + 1 && len(chain) >= 1
+//@   invariant "range chain[1:]" issuers-are-chain-tail: forall k int :: (0 <= k && k <= rangeindex) ==> e.Issuers[k] == chain[k + 1].Raw
+//@   invariant "range chain[1:]" entry-so-far: e.Certificate == chain[0].Raw && !e.IsPrecert && e != nil
+//@   invariant "range chain[1:]" chain-nonnil: forall k int :: (0 <= k && k < len(chain)) ==> chain[k] != nil
+//@   call ctfe.NewCertValidationOpts requires [C09] validation-options: c_trustedRoots == l.roots && !c_rejectExpired && !c_rejectUnexpired && c_notAfterStart == &l.c.NotAfterStart && c_notAfterLimit == &l.c.NotAfterLimit && !c_acceptOnlyCA && len(c_extKeyUsages) == 1 && c_extKeyUsages[0] == 1
+//@   call ctfe.ValidateChain requires [C09] validates-submitted-chain: c_rawChain == req.Chain && len(req.Chain) > 0
+//@   call ctlog.(*Log).addLeafToPool requires [C09] validated-and-type-checked: gValidateCalls == 1 && !gValidateFailed && gTypeChecked && c_leaf == e
+//@   call ctlog.(*Log).addLeafToPool requires [C09] entry-type: e.IsPrecert == isPrecertCert(chain[0])
+//@   call ctlog.(*Log).addLeafToPool requires [C09] final-certificate-entry: !e.IsPrecert ==> e.Certificate == chain[0].Raw
+//@   call ctlog.(*Log).addLeafToPool requires [C02,C09] precertificate-entry: e.IsPrecert ==> (len(chain) >= 2 && e.PreCertificate == chain[0].Raw && e.Certificate == precertTBS(chain[0].RawTBSCertificate, ite(isPreIssuerCert(chain[1]), chain[1], nil)))
+//@   call ctlog.(*Log).addLeafToPool requires [C02,C09] issuer-key-hash: e.IsPrecert ==> ((isPreIssuerCert(chain[1]) ==> (len(chain) >= 3 && e.IssuerKeyHash == sha256Of(chain[2].RawSubjectPublicKeyInfo))) && (!isPreIssuerCert(chain[1]) ==> e.IssuerKeyHash == sha256Of(chain[1].RawSubjectPublicKeyInfo)))
+//@   call ctlog.(*Log).addLeafToPool requires [C09] issuers: len(e.Issuers) == len(chain) - 1 && (forall k int :: (0 <= k && k < len(chain) - 1) ==> e.Issuers[k] == chain[k + 1].Raw)
+//@   call ctlog.digitallySign requires [C02,C09] sct-signs-sequenced-leaf: c_k == l.c.Key && c_msg == mtlOf(*seq)
+//@   call sunlight.MarshalExtensions requires [C02,C09] sct-extension-is-leaf-index: c_e.LeafIndex == seq.LeafIndex
+//@   call json.Marshal requires [C02,C09] sct-fields: (seq.Timestamp >= 0 ==> cast(c_v, "*ct.AddChainResponse").Timestamp == seq.Timestamp) && cast(c_v, "*ct.AddChainResponse").ID == bytes(l.logID) && cast(c_v, "*ct.AddChainResponse").Signature == sctSignature && cast(c_v, "*ct.AddChainResponse").SCTVersion == 0
+//@   returns [C09] ok-iff-no-error: (ret1 == 200) <==> (ret2 == nil)
+//@   returns [C09] invalid-chain-is-client-error-without-leaf: (gValidateCalls == 1 && gValidateFailed) ==> ret1 == 400 && ret2 != nil && gAddLeafCalls == 0
+//@   returns [C09] type-mismatch-is-client-error-without-leaf: (gValidateCalls == 1 && !gValidateFailed && gAddLeafCalls == 0 && ret2 != nil) ==> (ret1 == 400 || ret1 == 500)
+
+//@ guarded [C09] ctlog.Log.rootsMu: roots, rootsPEM
+//@ func ctlog.(*Log).SetRootsFromPEM props C09
+//@   requires l != nil && l.c != nil && !held(&l.rootsMu)
+//@   init gUp == emptyset("set[string]")
+//@   ensures [C09] roots-swapped-only-after-persisting: (l.roots != old(l.roots) || l.rootsPEM != old(l.rootsPEM)) ==> (ret == nil && gUp["_roots.pem"] && gUpData["_roots.pem"] == pemBytes && l.rootsPEM == pemBytes)
+//@   ensures [C09] failure-keeps-old-roots: ret != nil ==> l.roots == old(l.roots) && l.rootsPEM == old(l.rootsPEM)
+//@   ensures [C09] unlocked: !held(&l.rootsMu)
